@@ -189,10 +189,27 @@ def check_case(acc, kind, arch, params, tag=None, st=None, history=None):
                 break
     except LibRaised as e:
         bad(f"born:raised:{e.kind}", e.tb, None, detail="1-D / 2-row call form")
+    # results handed out earlier stay what they were: a later call on another input of the same shape (a loop that
+    # collects psi / probabilities state by state, a before/after comparison) must not write into them
+    try:
+        fl = torch.flip(space, [0])
+        for nm, fn in (("psi", st.psi), ("probability", st.probability), ("amplitude", st.amplitude), ("phase", st.phase)):
+            r1 = call(fn, space)
+            c1 = r1.clone()
+            r2 = call(fn, fl)
+            v1 = call(fn, space[0])
+            k1 = v1.clone()
+            v2 = call(fn, space[2 ** n - 1])
+            if not (torch.equal(r1, c1) and torch.equal(v1, k1)):
+                bad("born:earlier-result-overwritten-by-a-later-call", r1.numpy(), c1.numpy(), detail=dict(function=nm))
+                break
+    except LibRaised as e:
+        bad(f"born:raised:{e.kind}", e.tb, None, detail="repeated calls")
     # batches with repeated basis states that are NOT grouped (what a set of Monte-Carlo samples looks like)
     try:
         D_ = 2 ** n
-        for nm, ix in (("a,b,a,c,b", [0, D_ - 1, 0, 1 % D_, D_ - 1]), ("tiled-space", list(range(D_)) * 2), ("descending-with-repeat", list(range(D_ - 1, -1, -1)) + [D_ // 2])):
+        for nm, ix in (("a,b,a,c,b", [0, D_ - 1, 0, 1 % D_, D_ - 1]), ("tiled-space", list(range(D_)) * 2), ("descending-with-repeat", list(range(D_ - 1, -1, -1)) + [D_ // 2]),
+                       ("descending", list(range(D_ - 1, -1, -1))), ("unordered-subset", [D_ - 1, 0] + ([D_ // 2] if D_ > 2 else []))):
             sub = space[ix]
             keep_ = sub.clone()
             o_psi = L.cplx.numpy(call(st.psi, sub))
